@@ -184,6 +184,13 @@ func c16Run(t *testing.T, run *Run, sc c16Scenario, rng *rand.Rand) {
 			return
 		}
 	}
+	// handshakes (and direct certificate decisions) for every name under the configuration as first
+	// built, unjudged: whatever the proxy remembers per server name has been filled before the
+	// configuration changes below, and is judged afterwards against the final one
+	for _, sni := range []string{"t0.example", "t1.example", "x.wild.example", "y.wild.example", "unbound.example", "z.t0.example"} {
+		w.Router.GetCertificate(&tls.ClientHelloInfo{ServerName: sni})
+		w.Do(Req{ID: "warm-" + sni, Host: sni, Path: "/", TLS: true, SNI: sni})
+	}
 	switch sc.Build {
 	case "flip-root":
 		for _, i := range rng.Perm(len(sc.Services)) {
@@ -433,7 +440,7 @@ func c16Run(t *testing.T, run *Run, sc c16Scenario, rng *rand.Rand) {
 	acmeDials := w.DialAttempts["acme.invalid:80"]
 	w.mu.Unlock()
 	hasACME := false
-	for _, s := range final {
+	for _, s := range sc.Services { // at any time of the scenario (the warm-up handshakes ran under the first configuration)
 		hasACME = hasACME || s.TLS == "acme"
 	}
 	if !hasACME && acmeDials > 0 {
